@@ -483,7 +483,11 @@ def run_kind(t, kind, tier):
         if tier == "thorough":
             seqs += [[x, y] for x in names for y in names if x != y]
         for side in ("copy", "original"):
+            diverged = set()  # single edits after which the other side has already changed: not extended (pruned)
             for seq in seqs:
+                if len(seq) > 1 and seq[0] in diverged:
+                    t.stats["pairs pruned below a violating first edit"] += 1
+                    continue
                 case = dict(case0, edits=seq, side=side)
                 t.evaluations += 1
                 try:
@@ -500,6 +504,8 @@ def run_kind(t, kind, tier):
                     t.violation(f"reading the {('original' if side == 'copy' else 'copy')} after editing the {side} raises {type(e).__name__} [{cls}]", case, {"exc": repr(e)[:300]})
                     continue
                 d = snap_equal(s0, so)
+                if d and len(seq) == 1:
+                    diverged.add(seq[0])
                 if d:
                     t.violation(f"editing the {side} ({seq[-1]}) changes the {'original' if side == 'copy' else 'copy'}: {d.split('[')[0]} [{family(kind)}; {rname}]", case, {"key": d})
     t.sample({"kind": kind, "route": "copy()", "edits": names[:2], "side": "copy"}, limit=1)
